@@ -159,7 +159,7 @@ def main():
 
     # ---- 5. verdict
     viol_lines, known_lines = [], []
-    rdir = os.path.join(C.VERIF, "replays", pid)
+    rdir = os.path.join(C.OUT, "replays", pid)
     unknown_fail = []
     for i, msg in oracle_fail:
         hit = None
@@ -196,9 +196,9 @@ def main():
             "property": pid, "kind": "failing-input", "message": mod.oracle(pystog, small, sres) or msg,
             "case": small, "implementation_result": sres, "original_case_index": i,
             "broken": broken, "seed": seed, "tier": tier, "source": C.source_fingerprint(),
-            "replay": "cd /verif && /venv/bin/python harness/vcheck.py %s --replay %s" % (pid, os.path.relpath(path, C.VERIF)),
+            "replay": "cd /verif && /venv/bin/python harness/vcheck.py %s --replay %s" % (pid, os.path.relpath(path, C.OUT)),
         })
-        print("VIOLATION property=%s replay=%s" % (pid, os.path.relpath(path, C.VERIF)))
+        print("VIOLATION property=%s replay=%s" % (pid, os.path.relpath(path, C.OUT)))
         exit_code = 1
     elif broken:
         path = os.path.join(rdir, "broken_%s.json" % C.case_hash([broken, seed]))
@@ -209,7 +209,7 @@ def main():
             "searched": {"cases": len(cases), "oracle": getattr(mod.oracle, "__doc__", "")},
             "seed": seed, "tier": tier, "source": C.source_fingerprint(),
         })
-        print("VIOLATION property=%s replay=%s no-failing-input-found" % (pid, os.path.relpath(path, C.VERIF)))
+        print("VIOLATION property=%s replay=%s no-failing-input-found" % (pid, os.path.relpath(path, C.OUT)))
         exit_code = 1
 
     # ---- 6. evidence
@@ -260,7 +260,7 @@ def main():
             ev["coverage"].update(mod.extra_evidence(tier))
         except Exception:
             pass
-    C.write_json(os.path.join(C.VERIF, "evidence", pid + ".json"), ev)
+    C.write_json(os.path.join(C.OUT, "evidence", pid + ".json"), ev)
     print("%s tier=%s seed=%d cases=%d corr_bad=%d maxdev=%.3g oracle_fail=%d theorems=%d/%d wall=%.1fs exit=%d" % (
         pid, tier, seed, len(cases), len(bad), maxdev, len(oracle_fail), discharged, obligations, time.time() - t0, exit_code))
     sys.exit(exit_code)
